@@ -318,12 +318,15 @@ func debugPortDiff(repo string) {
 		}
 		name := funcName(fd)
 		rn := strings.Replace(strings.Replace(name, "formatter.", "fmt.", 1), "fmtbuf.", "buffer.", 1)
+		if rn == "pp.doFormat" {
+			rn = "pp.doPrintf"
+		}
 		rf := w.FuncDecl(ref, rn)
 		if rf == nil {
 			fmt.Printf("== %s: no reference function %s\n", name, rn)
 			return
 		}
-		a, b := flattenBody(w.Root, fd, sub), flattenBody(ref, rf, sub)
+		a, b := flattenBody(w.Root, fd, sub, fmtHelpers(w, w.Root, ref)), flattenBody(ref, rf, sub)
 		oa, ob := lcsDiff(a, b)
 		fmt.Printf("== %s: %d/%d statements, only-tengo %d, only-ref %d\n", name, len(a), len(b), len(oa), len(ob))
 		for _, s := range oa {
